@@ -168,8 +168,10 @@ def run():
                              {render_re(p['src']): name(p['tgt']) for p in a} if c['op'] == 'rename' else a))
             rep.violation(c, dict(desc, **{k: v for k, v in out.items() if k != 'ok'}),
                           category='%s/%s/%s' % (c['op'], 'regex' if c['regex'] else 'literal', out['why'][:40]))
-    rep.sample(dict(case=dict(op=cases[-1]['op'], schema=[name(n) for n in cases[-1]['schema']], regex=cases[-1]['regex'],
-                              result=[name(n) for n in cases[-1]['result']])))
+    smp = [c for c in cases if c['op'] in ('select', 'delete', 'rename')][-1]
+    rep.sample(dict(case=dict(op=smp['op'], schema=[name(n) for n in smp['schema']], regex=smp['regex'],
+                              patterns=[render_re(p['src'] if smp['op'] == 'rename' else p) for p in smp['arg']],
+                              result=[name(n) for n in smp['result']])))
     rep.assumptions += ['rows with no non-null source are outside the documented domain of avg/min/max/multiply and are not generated for them',
                         'rename targets are fresh names and no two fields are renamed to the same name (the documented assertion)']
     return rep.finish(exhaustive=(t == 'thorough'))
